@@ -326,4 +326,154 @@ theorem message_wire_roundtrip (client : Bool) (t : Bool) (keys : Nat → Option
     rw [this]; rfl
   · exact reassemble_burst t fr hwf none
 
+/-! ### text frames through the incremental decoder -/
+
+theorem streamEventsU_encode (client : Bool) (rsvOk : Nat → Nat → Bool) (frames : List Frame)
+    (h : FramesOk client rsvOk frames) :
+    ∀ fuel ms pend, frames.length < fuel →
+      streamEventsU client rsvOk fuel ms pend (frames.flatMap encodeFrame) = (framesEventsU ms pend frames).map (·.2.2) := by
+  induction frames with
+  | nil => intro fuel ms pend hf; cases fuel with
+    | zero => omega
+    | succ n => simp [streamEventsU, decodeFrame, framesEventsU]
+  | cons f fs ih =>
+    intro fuel ms pend hf
+    cases fuel with
+    | zero => omega
+    | succ n =>
+      have hf1 := h f (by simp)
+      simp only [List.flatMap_cons, streamEventsU, framesEventsU]
+      rw [frame_roundtrip' client rsvOk f _ hf1.1 hf1.2]
+      simp only
+      cases hfe : frameEventU ms pend f with
+      | none => simp
+      | some r =>
+        obtain ⟨ms1, p1, e⟩ := r
+        simp only
+        by_cases h8 : f.opcode = 8
+        · simp [h8]
+        · simp only [h8, if_false]
+          rw [ih (fun g hg => h g (List.mem_cons_of_mem _ hg)) n ms1 p1 (by simp at hf; omega)]
+          cases framesEventsU ms1 p1 fs with
+          | none => simp
+          | some r2 => simp
+
+theorem flagged_map_fst (l : List Bytes) : (flagged l).map (·.1) = l := by
+  induction l with
+  | nil => rfl
+  | cons a l ih =>
+    cases l with
+    | nil => rfl
+    | cons b l => simp only [flagged, List.map_cons] at ih ⊢; rw [ih]
+
+theorem flagged_wellFramed (l : List Bytes) (h : l ≠ []) : wellFramed (flagged l) = true := by
+  induction l with
+  | nil => exact absurd rfl h
+  | cons a l ih =>
+    cases l with
+    | nil => rfl
+    | cons b l =>
+      have := ih (by simp)
+      cases hfl : flagged (b :: l) with
+      | nil => rw [hfl] at this; simp [wellFramed] at this
+      | cons q qs => simp only [flagged, hfl, wellFramed]; rw [hfl] at this; simpa using this
+
+theorem decodeChunks_length (cs : List Bytes) : ∀ (p : Bytes) (r : List Bytes × Bytes),
+    decodeChunks p cs = some r → r.1.length = cs.length := by
+  induction cs with
+  | nil => intro p r h; simp [decodeChunks] at h; subst h; rfl
+  | cons c rest ih =>
+    intro p r h
+    cases rest with
+    | nil =>
+      simp only [decodeChunks] at h
+      cases hi : incDecode p c true with
+      | none => rw [hi] at h; simp at h
+      | some r1 => rw [hi] at h; simp at h; subst h; rfl
+    | cons c2 rest' =>
+      simp only [decodeChunks] at h
+      cases hi : incDecode p c false with
+      | none => rw [hi] at h; simp at h
+      | some r1 =>
+        rw [hi] at h; simp only at h
+        cases hd : decodeChunks r1.2 (c2 :: rest') with
+        | none => rw [hd] at h; simp at h
+        | some r2 =>
+          rw [hd] at h; simp at h; subst h
+          simp [ih r1.2 r2 hd]
+
+/-- the data frames of a text message whose payloads are cut anywhere, through the decoder -/
+theorem dataFrames_eventsU (keys : Nat → Option Bytes) (cs : List Bytes) :
+    cs ≠ [] → ∀ (start : Nat) (first : Bool) (pend : Bytes),
+    framesEventsU (if first then none else some 1) pend (dataFrames true keys start first (flagged cs)) =
+      match decodeChunks (if first then [] else pend) cs with
+      | none => none
+      | some r => some (none, r.2, (flagged r.1).map (fun pf => WsEv.msg true pf.1 true pf.2)) := by
+  induction cs with
+  | nil => intro h; exact absurd rfl h
+  | cons c rest ih =>
+    intro _ start first pend
+    cases rest with
+    | nil =>
+      have hd : dataFrames true keys start first (flagged [c]) =
+          [{ fin := true, rsv := 0, opcode := (if first then 1 else 0), key := keys start, payload := c }] := by
+        simp [flagged, dataFrames]
+      rw [hd]
+      simp only [framesEventsU, decodeChunks]
+      cases first
+      · simp only [Bool.false_eq_true, if_false, frameEventU, frameEvent]
+        simp only [show ((0:Nat) = 9) = False by simp, show ((0:Nat) = 10) = False by simp, show ((0:Nat) = 8) = False by simp,
+          if_false, ne_eq, not_true_eq_false, if_true, Option.isNone_some, Bool.false_eq_true, decide_true]
+        cases incDecode pend c true with
+        | none => simp
+        | some r => simp [flagged]
+      · simp only [if_true, frameEventU, frameEvent]
+        simp only [show ((1:Nat) = 9) = False by simp, show ((1:Nat) = 10) = False by simp, show ((1:Nat) = 8) = False by simp,
+          show ((1:Nat) = 0) = False by simp, if_false, if_true, Option.isNone_none, decide_true]
+        cases incDecode [] c true with
+        | none => simp
+        | some r => simp [flagged]
+    | cons c2 rest' =>
+      have hd : dataFrames true keys start first (flagged (c :: c2 :: rest')) =
+          { fin := false, rsv := 0, opcode := (if first then 1 else 0), key := keys start, payload := c }
+            :: dataFrames true keys (start + 1) false (flagged (c2 :: rest')) := by
+        simp [flagged, dataFrames]
+      rw [hd]
+      have hih := fun p => ih (by simp) (start + 1) false p
+      simp only [Bool.false_eq_true, if_false] at hih
+      simp only [framesEventsU, decodeChunks]
+      cases first
+      · simp only [Bool.false_eq_true, if_false, frameEventU, frameEvent]
+        simp only [show ((0:Nat) = 9) = False by simp, show ((0:Nat) = 10) = False by simp, show ((0:Nat) = 8) = False by simp,
+          if_false, ne_eq, not_true_eq_false, if_true, Option.isNone_some, Bool.false_eq_true, decide_true]
+        cases hi : incDecode pend c false with
+        | none => simp
+        | some r =>
+          simp only [Bool.false_eq_true, if_false]
+          rw [hih r.2]
+          cases hd2 : decodeChunks r.2 (c2 :: rest') with
+          | none => simp
+          | some r2 =>
+            have hl := decodeChunks_length (c2 :: rest') r.2 r2 hd2
+            obtain ⟨o2, p2⟩ := r2
+            cases o2 with
+            | nil => simp at hl
+            | cons y ys => simp [flagged]
+      · simp only [if_true, frameEventU, frameEvent]
+        simp only [show ((1:Nat) = 9) = False by simp, show ((1:Nat) = 10) = False by simp, show ((1:Nat) = 8) = False by simp,
+          show ((1:Nat) = 0) = False by simp, if_false, if_true, Option.isNone_none, decide_true]
+        cases hi : incDecode [] c false with
+        | none => simp
+        | some r =>
+          simp only [Bool.false_eq_true, if_false]
+          rw [hih r.2]
+          cases hd2 : decodeChunks r.2 (c2 :: rest') with
+          | none => simp
+          | some r2 =>
+            have hl := decodeChunks_length (c2 :: rest') r.2 r2 hd2
+            obtain ⟨o2, p2⟩ := r2
+            cases o2 with
+            | nil => simp at hl
+            | cons y ys => simp [flagged]
+
 end MitmVerif.C28.Wire
